@@ -72,6 +72,15 @@ invariant
             forall|x: PathS| #[trigger] final(self).to_visit@.contains(x) <==> old(self).to_visit@.contains(x) && !under(x, path), // OBL:C14.skip.pruned_subtree_is_never_entered
             final(self).base == old(self).base, final(self).filter.files == old(self).filter.files, final(self).errors@ == old(self).errors@,
             final(self).to_explicitly_watch.s == old(self).to_explicitly_watch.s,
+//@ item DirTourist::add_last_file_to_filter
+//@ header
+    pub fn add_last_file_to_filter(&mut self, files: &Vec<IgnoreFile>, errors: &mut Vec<IoError>)
+        ensures
+            // the file found last is what the walker's filter learns (so that it prunes the rest of the walk); a failure is reported, not fatal
+            files@.len() > 0 ==> (final(self).filter.files@ == old(self).filter.files@.push(files@.last()) && final(errors)@ == old(errors)@)
+                || (final(self).filter.files@ == old(self).filter.files@ && final(errors)@.len() == old(errors)@.len() + 1), // OBL:C14.add_last_file_to_filter.feeds_the_file_found_last
+            files@.len() == 0 ==> final(self).filter.files@ == old(self).filter.files@ && final(errors)@ == old(errors)@,
+            final(self).to_visit@ == old(self).to_visit@, final(self).to_skip.s == old(self).to_skip.s, final(self).base == old(self).base,
 //@ item DirTourist::next
 //@ header
     pub fn next(&mut self) -> (r: Visit)
